@@ -30,6 +30,9 @@ TRUSTED = ["numpy.loadtxt parses whitespace-separated numeric / string tables as
 def configs(tier):
     out = [{"part": "indexing", "size": s} for s in range(1, 21)]
     out += [{"part": "oversize"}, {"part": "loaders"}, {"part": "refbasis"}]
+    # site 0 is the leftmost factor of every tensor product: the C04 contracts of _kron_mult / rotate_* on
+    # non-palindromic basis strings, stated against the same big-endian index function
+    out += [{"part": "tensor-order", "basis": b} for b in (["XZ", "ZY"] if tier == "quick" else ["XZ", "ZY", "XYZ", "ZZX", "YZ", "XZZY"])]
     return out
 
 
@@ -38,6 +41,9 @@ def canaries(tier):
 
 
 def run_config(ctx, cfg):
+    if cfg["part"] == "tensor-order":
+        from lemmas import C04
+        return C04._rotations(ctx, {"mode": "symbolic", "basis": cfg["basis"]})
     return {"indexing": _indexing, "oversize": _oversize, "loaders": _loaders, "refbasis": _refbasis}[cfg["part"]](ctx, cfg)
 
 
